@@ -213,6 +213,18 @@ func propC14(c *ctx) error {
 			}
 		}
 	}
+	// LONG literals (around the buffer sizes of the readers involved: 4096, 8192, 65536 bytes), in every style and embedded
+	for _, n := range []int{4090, 4095, 4096, 4097, 4125, 8192, 8193} {
+		for _, unit := range []string{"a", "é", "ab\n"} {
+			if (n != 4096 && n != 4125 && unit != "a") || (c.quick() && n > 4200 && unit != "a") {
+				continue
+			}
+			res.count("long_literals")
+			if err := check(strings.Repeat(unit, n/len(unit)+1)[:n-n%len(unit)]); err != nil {
+				return err
+			}
+		}
+	}
 	for _, cs := range c.corpusCases() {
 		if s, ok := cs["string"].(string); ok {
 			if err := check(s); err != nil {
